@@ -100,7 +100,7 @@ def run_correspondence(prep, pid, tier, seed, outdir, runner=None):
     binary = prep["corr"]
     if pid == "C20" and prep.get("corr_race") and os.path.exists(prep["corr_race"]):
         binary = prep["corr_race"]
-    p = vlib.run([binary, "-prop", runner or pid, "-tier", tier, "-seed", str(seed), "-out", ops, "-dist", dist],
+    p = vlib.run([binary, "-prop", runner or pid, "-tier", tier, "-seed", str(seed), "-out", ops, "-dist", dist, "-genmod", prep.get("genmod", "")],
                  cwd=outdir, check=False, timeout=3000)
     if p.returncode != 0 or "WARNING: DATA RACE" in (p.stdout or ""):
         open(os.path.join(outdir, "harness.log"), "w").write(p.stdout or "")
@@ -272,6 +272,21 @@ def main():
     if agg is None and not violations:
         pl = {"property": pid, "kind": "correspondence could not run", "notes": notes, "no_longer_checks": "correspondence for " + pid}
         violations.append("VIOLATION property=%s replay=%s no-failing-input-found" % (pid, write_replay(pid, "norun", pl)))
+    extra_cov = {}
+    if pid == "C13":
+        import c13
+        ncmp, fnd = c13.compare(prep, vlib.REPO)
+        extra_cov = {"file_comparisons": ncmp, "file_findings": fnd[:20]}
+        for f in fnd[:3]:
+            violations.append("VIOLATION property=%s replay=%s" % (pid, write_replay(pid, "files", {"property": pid, "kind": f["kind"], "file": f["file"], "detail": f["detail"]})))
+    if pid == "C14":
+        import c14
+        nf, fnd, gerrs = c14.facts(prep)
+        extra_cov = {"file_facts_checked": nf, "file_findings": fnd[:20], "generator_errors": gerrs}
+        for f in fnd[:3]:
+            violations.append("VIOLATION property=%s replay=%s" % (pid, write_replay(pid, "files", dict(f, property=pid))))
+        if gerrs.get("decl-unforced"):
+            known_lines.append("KNOWN-FINDING: property=C14 class=generator-stops-at-first-failure an un-forced Compile() over the enumerated declarations stops with: %s" % gerrs["decl-unforced"][:120])
     # coverage of the generator: the shapes the model calls compilable must have been exercised
     cov = check_coverage(pid, cfg, prep)
     if cov:
@@ -314,6 +329,7 @@ def main():
             "skipped": agg["skip"] if agg else {},
             "input_distribution": dist.get("distribution", {}),
             "notes": notes,
+            **extra_cov,
         },
         "assumptions": cfg.get("assumptions", []),
         "wall_s": round(time.time() - t0, 1),
